@@ -1,7 +1,314 @@
-//! C02 — stub (monitor not built yet)
-use crate::run::{Ctx, Report, Stats};
-pub fn run(_ctx: &Ctx) -> Report {
-    let mut r = Report::new(Stats::default(), "not built");
-    r.inconclusive.push("monitor-not-built".into());
-    r
+//! C02 — determinant and inverse agree with exact linear algebra; matrix left intact.
+use crate::fl::{self, U};
+use crate::model::{exact_det_rank_inv, DM};
+use crate::mon::c01::{kappa_exact, mag_crat, mag_rat, plu_exact, rand_dense_exact, KMAX};
+use crate::mon::common::*;
+use crate::rat::{CRat, Exact, Rat};
+use crate::rng::{permutations, Rng};
+use crate::run::{catch, par_run, Ctx, Outcome, Report, Stats};
+use ohsl::{Cmplx, Matrix};
+
+const TAG: u64 = 0xC02;
+fn tau(n: usize) -> f64 { 1024.0 * n as f64 * U }
+
+fn hash_dm<E: Exact>(tag: &str, class: &str, a: &DM<E>) -> u64 {
+    let mut h = hash_str(tag) ^ hash_str(class);
+    for row in &a.a { for v in row { h = hmix(h, v.hash_u64()); } }
+    h
+}
+
+/// exact determinant / inverse through the real generic code
+fn judge_exact<E: Exact>(st: &mut Stats, class: &str, a: &DM<E>) {
+    let n = a.r;
+    st.next_case();
+    let (det, rank, inv) = match catch(|| exact_det_rank_inv(a)) { Outcome::Ok(t) => t, _ => { st.count("skipped:rat-overflow-in-model"); return; } };
+    let desc = || format!("T={} n={} class={} rank={} A={}", E::NAME, n, class, rank, a.show());
+    let m = a.to_ohsl();
+    let len0 = m.verif_storage_len();
+    // determinant: every square matrix, singular ones included
+    st.eval();
+    match catch(|| m.determinant()) {
+        Outcome::Overflow => st.count("skipped:rat-overflow-in-library"),
+        Outcome::Ok(d) => {
+            if d != det {
+                let kind = if rank < n { "singular-nonzero" } else { "wrong-value" };
+                st.violation(&format!("C02:determinant:{}:{}", E::NAME, kind), format!("determinant() = {:?}, exact = {:?}; {}", d, det, desc()));
+            }
+        }
+        other => {
+            let kind = if rank < n { "singular-panic" } else { "nonsingular-panic" };
+            st.violation(&format!("C02:determinant:{}:{}", E::NAME, kind), format!("determinant() {} (exact det {:?}); {}", other.describe(), det, desc()));
+        }
+    }
+    if !a.eq_ohsl(&m) || m.verif_storage_len() != len0 {
+        st.violation(&format!("C02:determinant:{}:mutated-matrix", E::NAME), format!("matrix changed by determinant(); {}", desc()));
+    }
+    st.count(&format!("det:{}:{}:{}", E::NAME, class, if rank < n { "singular" } else { "nonsingular" }));
+    st.set_insert(&format!("ranks_seen:{}", E::NAME), format!("n{}r{}", n, rank));
+    if n >= 2 { st.nontrivial(hash_dm(E::NAME, class, a)); }
+    // inverse: nonsingular matrices
+    if let Some(invm) = inv {
+        st.eval();
+        match catch(|| m.inverse()) {
+            Outcome::Overflow => st.count("skipped:rat-overflow-in-library"),
+            Outcome::Ok(x) => {
+                let xm = DM::from_ohsl(&x);
+                let shape_ok = xm.r == n && xm.c == n;
+                let both = if shape_ok { catch(|| (a.mul(&xm).is_identity(), xm.mul(a).is_identity())).ok() } else { Some((false, false)) };
+                if let Some((l, r)) = both {
+                    if !l || !r || xm != invm {
+                        st.violation(&format!("C02:inverse:{}:wrong-value", E::NAME), format!("inverse() = {} but A*X==I:{} X*A==I:{} exact inverse {}; {}", xm.show(), l, r, invm.show(), desc()));
+                    }
+                } else { st.count("skipped:rat-overflow-in-model"); }
+            }
+            other => st.violation(&format!("C02:inverse:{}:nonsingular-panic", E::NAME), format!("inverse() {}; {}", other.describe(), desc())),
+        }
+        if !a.eq_ohsl(&m) || m.verif_storage_len() != len0 {
+            st.violation(&format!("C02:inverse:{}:mutated-matrix", E::NAME), format!("matrix changed by inverse(); {}", desc()));
+        }
+    }
+    st.sample(|| desc());
+}
+
+/// det(AB) = det(A) det(B) through the library only (multiplication via the model to stay independent of Matrix::mul)
+fn judge_product_rule<E: Exact>(st: &mut Stats, a: &DM<E>, b: &DM<E>) {
+    st.next_case();
+    let ab = match catch(|| a.mul(b)) { Outcome::Ok(x) => x, _ => { st.count("skipped:rat-overflow-in-model"); return; } };
+    let r = catch(|| (a.to_ohsl().determinant(), b.to_ohsl().determinant(), ab.to_ohsl().determinant()));
+    st.eval();
+    if let Outcome::Ok((da, db, dab)) = r {
+        if let Outcome::Ok(p) = catch(|| da * db) {
+            if p != dab { st.violation(&format!("C02:determinant:{}:product-rule", E::NAME), format!("det(A)={:?} det(B)={:?} det(AB)={:?}; A={} B={}", da, db, dab, a.show(), b.show())); }
+        }
+    } // panics here are reported by judge_exact on the same classes
+}
+
+fn judge_f64(st: &mut Stats, class: &str, ar: &DM<Rat>) {
+    let n = ar.r;
+    st.next_case();
+    let af: Vec<Vec<f64>> = match ar.a.iter().map(|r| r.iter().map(|v| v.as_exact_f64()).collect::<Option<Vec<f64>>>()).collect::<Option<Vec<_>>>() { Some(x) => x, None => return };
+    let (det, rank, inv) = match catch(|| exact_det_rank_inv(ar)) { Outcome::Ok(t) => t, _ => { st.count("skipped:rat-overflow-in-model"); return; } };
+    let desc = || format!("T=f64 n={} class={} rank={} A={:?}", n, class, rank, af);
+    let m = mat_f64(&af);
+    let snapshot: Vec<u64> = af.iter().flatten().map(|v| v.to_bits()).collect();
+    let unchanged = |m: &Matrix<f64>| { let mut k = 0; for i in 0..n { for j in 0..n { if m[(i, j)].to_bits() != snapshot[k] { return false; } k += 1; } } m.rows() == n && m.cols() == n && m.verif_storage_len() == n * n };
+    if rank < n {
+        st.eval();
+        match catch(|| m.determinant()) {
+            Outcome::Ok(d) => {
+                let had: f64 = af.iter().map(|r| r.iter().map(|v| v * v).sum::<f64>().sqrt()).product();
+                let bound = n as f64 * tau(n) * had;
+                if !d.is_finite() { st.violation("C02:determinant:f64:singular-nonfinite", format!("determinant() = {} on exactly singular matrix; {}", d, desc())); }
+                else {
+                    st.max("f64:singular_det_over_bound", if bound > 0.0 { d.abs() / bound } else if d == 0.0 { 0.0 } else { f64::INFINITY });
+                    if !(d.abs() <= bound) { st.violation("C02:determinant:f64:singular-large", format!("determinant() = {:e} > {:e} on exactly singular matrix; {}", d, bound, desc())); }
+                }
+            }
+            other => st.violation("C02:determinant:f64:singular-panic", format!("determinant() {}; {}", other.describe(), desc())),
+        }
+        if !unchanged(&m) { st.violation("C02:determinant:f64:mutated-matrix", format!("matrix changed; {}", desc())); }
+        st.count(&format!("det:f64:{}:singular", class));
+        if n >= 2 { st.nontrivial(hash_dm("f64", class, ar)); }
+        return;
+    }
+    let k = match kappa_exact(ar, mag_rat) { Some(k) if k <= KMAX => k, _ => { st.count("skipped:float-kappa-too-large"); return; } };
+    let dex = det.to_f64();
+    st.eval();
+    match catch(|| m.determinant()) {
+        Outcome::Ok(d) => {
+            let bound = n as f64 * k * tau(n) * dex.abs();
+            st.max("f64:det_err_over_bound", (d - dex).abs() / bound);
+            if !d.is_finite() || !((d - dex).abs() <= bound) { st.violation("C02:determinant:f64:inaccurate", format!("determinant() = {:e}, exact {:e}, bound {:e}; {}", d, dex, bound, desc())); }
+        }
+        other => st.violation("C02:determinant:f64:nonsingular-panic", format!("determinant() {}; {}", other.describe(), desc())),
+    }
+    if !unchanged(&m) { st.violation("C02:determinant:f64:mutated-matrix", format!("matrix changed; {}", desc())); }
+    st.eval();
+    match catch(|| m.inverse()) {
+        Outcome::Ok(x) => {
+            if x.rows() != n || x.cols() != n { st.violation("C02:inverse:f64:shape", format!("inverse shape {}x{}; {}", x.rows(), x.cols(), desc())); }
+            else {
+                // residuals in double-double
+                let mut r1 = 0.0f64; let mut r2 = 0.0f64; let mut finite = true;
+                for i in 0..n {
+                    let (mut s1, mut s2) = (0.0, 0.0);
+                    for j in 0..n {
+                        let mut p = fl::DD::ZERO; let mut q = fl::DD::ZERO;
+                        for l in 0..n { p = p + fl::DD::prod(af[i][l], x[(l, j)]); q = q + fl::DD::prod(x[(i, l)], af[l][j]); finite &= x[(l, j)].is_finite(); }
+                        let e = if i == j { 1.0 } else { 0.0 };
+                        s1 += (p.f() - e).abs(); s2 += (q.f() - e).abs();
+                    }
+                    r1 = r1.max(s1); r2 = r2.max(s2);
+                }
+                let bound = 4.0 * n as f64 * k * tau(n);
+                st.max("f64:inv_right_resid_over_bound", r1 / bound);
+                st.max("f64:inv_left_resid_over_bound", r2 / bound);
+                if !finite || !(r1 <= bound) || !(r2 <= bound) { st.violation("C02:inverse:f64:inaccurate", format!("|AX-I|={:e} |XA-I|={:e} bound {:e} (kappa {:e}); {}", r1, r2, bound, k, desc())); }
+                let _ = &inv;
+            }
+        }
+        other => st.violation("C02:inverse:f64:nonsingular-panic", format!("inverse() {}; {}", other.describe(), desc())),
+    }
+    if !unchanged(&m) { st.violation("C02:inverse:f64:mutated-matrix", format!("matrix changed; {}", desc())); }
+    st.count(&format!("det:f64:{}:nonsingular", class));
+    if n >= 2 { st.nontrivial(hash_dm("f64", class, ar)); }
+}
+
+fn judge_cmplx(st: &mut Stats, class: &str, ac: &DM<CRat>) {
+    let n = ac.r;
+    st.next_case();
+    let af: Vec<Vec<Cmplx>> = match ac.a.iter().map(|r| r.iter().map(|v| Some(Cmplx::new(v.re.as_exact_f64()?, v.im.as_exact_f64()?))).collect::<Option<Vec<Cmplx>>>()).collect::<Option<Vec<_>>>() { Some(x) => x, None => return };
+    let (det, rank, _inv) = match catch(|| exact_det_rank_inv(ac)) { Outcome::Ok(t) => t, _ => { st.count("skipped:rat-overflow-in-model"); return; } };
+    let desc = || format!("T=Cmplx n={} class={} rank={} A={:?}", n, class, rank, af);
+    let m = mat_c(&af);
+    let snapshot: Vec<(u64, u64)> = af.iter().flatten().map(|v| (v.real.to_bits(), v.imag.to_bits())).collect();
+    let unchanged = |m: &Matrix<Cmplx>| { let mut k = 0; for i in 0..n { for j in 0..n { let v = m[(i, j)]; if (v.real.to_bits(), v.imag.to_bits()) != snapshot[k] { return false; } k += 1; } } m.rows() == n && m.cols() == n && m.verif_storage_len() == n * n };
+    if rank < n {
+        st.eval();
+        match catch(|| m.determinant()) {
+            Outcome::Ok(d) => {
+                let had: f64 = af.iter().map(|r| r.iter().map(|v| v.abs_sqr()).sum::<f64>().sqrt()).product();
+                let bound = n as f64 * tau(n) * had;
+                if !(d.real.is_finite() && d.imag.is_finite()) { st.violation("C02:determinant:Cmplx:singular-nonfinite", format!("determinant() = {:?} on exactly singular matrix; {}", d, desc())); }
+                else {
+                    st.max("Cmplx:singular_det_over_bound", if bound > 0.0 { fl::cabs(d) / bound } else if fl::cabs(d) == 0.0 { 0.0 } else { f64::INFINITY });
+                    if !(fl::cabs(d) <= bound) { st.violation("C02:determinant:Cmplx:singular-large", format!("determinant() = {:?} > {:e}; {}", d, bound, desc())); }
+                }
+            }
+            other => st.violation("C02:determinant:Cmplx:singular-panic", format!("determinant() {}; {}", other.describe(), desc())),
+        }
+        if !unchanged(&m) { st.violation("C02:determinant:Cmplx:mutated-matrix", format!("matrix changed; {}", desc())); }
+        st.count(&format!("det:Cmplx:{}:singular", class));
+        if n >= 2 { st.nontrivial(hash_dm("Cmplx", class, ac)); }
+        return;
+    }
+    let k = match kappa_exact(ac, mag_crat) { Some(k) if k <= KMAX => k, _ => { st.count("skipped:float-kappa-too-large"); return; } };
+    let dex = Cmplx::new(det.re.to_f64(), det.im.to_f64());
+    st.eval();
+    match catch(|| m.determinant()) {
+        Outcome::Ok(d) => {
+            let bound = n as f64 * k * tau(n) * fl::cabs(dex);
+            let err = fl::cabs(d - dex);
+            st.max("Cmplx:det_err_over_bound", err / bound);
+            if !(err <= bound) { st.violation("C02:determinant:Cmplx:inaccurate", format!("determinant() = {:?}, exact {:?}, bound {:e}; {}", d, dex, bound, desc())); }
+        }
+        other => st.violation("C02:determinant:Cmplx:nonsingular-panic", format!("determinant() {}; {}", other.describe(), desc())),
+    }
+    if !unchanged(&m) { st.violation("C02:determinant:Cmplx:mutated-matrix", format!("matrix changed; {}", desc())); }
+    st.eval();
+    match catch(|| m.inverse()) {
+        Outcome::Ok(x) => {
+            if x.rows() != n || x.cols() != n { st.violation("C02:inverse:Cmplx:shape", format!("inverse shape {}x{}; {}", x.rows(), x.cols(), desc())); }
+            else {
+                let mut r1 = 0.0f64; let mut r2 = 0.0f64;
+                for i in 0..n {
+                    let (mut s1, mut s2) = (0.0, 0.0);
+                    for j in 0..n {
+                        let mut p = fl::CDD::ZERO; let mut q = fl::CDD::ZERO;
+                        for l in 0..n { p = p + fl::CDD::from(af[i][l]) * fl::CDD::from(x[(l, j)]); q = q + fl::CDD::from(x[(i, l)]) * fl::CDD::from(af[l][j]); }
+                        let e = fl::CDD::from_re(if i == j { 1.0 } else { 0.0 });
+                        s1 += (p - e).abs(); s2 += (q - e).abs();
+                    }
+                    r1 = r1.max(s1); r2 = r2.max(s2);
+                }
+                let bound = 4.0 * n as f64 * k * tau(n);
+                st.max("Cmplx:inv_right_resid_over_bound", r1 / bound);
+                st.max("Cmplx:inv_left_resid_over_bound", r2 / bound);
+                if !(r1 <= bound) || !(r2 <= bound) { st.violation("C02:inverse:Cmplx:inaccurate", format!("|AX-I|={:e} |XA-I|={:e} bound {:e}; {}", r1, r2, bound, desc())); }
+            }
+        }
+        other => st.violation("C02:inverse:Cmplx:nonsingular-panic", format!("inverse() {}; {}", other.describe(), desc())),
+    }
+    if !unchanged(&m) { st.violation("C02:inverse:Cmplx:mutated-matrix", format!("matrix changed; {}", desc())); }
+    st.count(&format!("det:Cmplx:{}:nonsingular", class));
+    if n >= 2 { st.nontrivial(hash_dm("Cmplx", class, ac)); }
+}
+
+/// make a matrix of the given class rank-deficient
+fn make_singular<E: Exact>(rng: &mut Rng, a: &mut DM<E>, how: u64) -> &'static str {
+    let n = a.r;
+    match how {
+        0 => { let i = rng.usize(0, n - 1); for j in 0..n { a.a[i][j] = E::zero(); } "zero-row" }
+        1 => { let j = rng.usize(0, n - 1); for i in 0..n { a.a[i][j] = E::zero(); } "zero-col" }
+        2 if n >= 2 => { let i = rng.usize(0, n - 1); let mut k = rng.usize(0, n - 1); if k == i { k = (i + 1) % n; } let c = E::from_int(rng.nzint(3)); for j in 0..n { a.a[k][j] = a.a[i][j] * c; } "proportional-rows" }
+        3 if n >= 3 => { // rank n-2: two rows are combinations of the others
+            let c1 = E::from_int(rng.nzint(2)); let c2 = E::from_int(rng.nzint(2));
+            for j in 0..n { a.a[n - 1][j] = a.a[0][j] * c1 + a.a[1][j] * c2; a.a[n - 2][j] = a.a[0][j] - a.a[1][j]; } "rank-n-2"
+        }
+        4 if n >= 2 => { // last column is a combination of the first columns (zero pivot appears only at the last step)
+            for i in 0..n { let mut s = E::zero(); for j in 0..n - 1 { s = s + a.a[i][j] * E::from_int((j as i64 % 3) - 1); } a.a[i][n - 1] = s; } "dependent-last-col"
+        }
+        _ => { for j in 0..n { a.a[0][j] = E::zero(); } "zero-row" }
+    }
+}
+
+fn all_types(st: &mut Stats, class: &str, ar: &DM<Rat>, ac: &DM<CRat>) {
+    judge_exact(st, class, ar);
+    judge_exact(st, class, ac);
+    judge_f64(st, class, ar);
+    judge_cmplx(st, class, ac);
+}
+
+pub fn run(ctx: &Ctx) -> Report {
+    let mut perms: Vec<Vec<usize>> = vec![];
+    let maxn = if ctx.quick() { 6 } else { 7 };
+    for n in 1..=maxn { perms.extend(permutations(n)); }
+    let chunk = 8usize;
+    let np = ((perms.len() + chunk - 1) / chunk) as u64;
+    let nrand = ctx.vol(2500, 120_000);
+    let stats = par_run(ctx, TAG, np + nrand, |u, rng, st| {
+        if u < np {
+            let lo = u as usize * chunk;
+            for p in &perms[lo..(lo + chunk).min(perms.len())] {
+                let n = p.len();
+                // permutation matrix (sign rule) and a scaled permutation
+                let pm = DM::<Rat>::from_fn(n, n, |i, j| if p[i] == j { Rat::ONE } else { Rat::ZERO });
+                let pc = DM::<CRat>::from_fn(n, n, |i, j| if p[i] == j { CRat::from_int(1) } else { CRat::from_int(0) });
+                all_types(st, "permutation", &pm, &pc);
+                let sc: Vec<i64> = (0..n).map(|_| rng.nzint(7)).collect();
+                let sm = DM::<Rat>::from_fn(n, n, |i, j| if p[i] == j { Rat::int(sc[i]) } else { Rat::ZERO });
+                let scc = DM::<CRat>::from_fn(n, n, |i, j| if p[i] == j { CRat::new(Rat::int(sc[i]), Rat::int(sc[(i + 1) % n])) } else { CRat::from_int(0) });
+                all_types(st, "scaled-permutation", &sm, &scc);
+                // P*L*U: parity of the forced exchanges
+                let variant = rng.below(3) as u32;
+                let mut r2 = rng.clone();
+                let ar = plu_exact::<Rat>(rng, p, variant);
+                let ac = plu_exact::<CRat>(&mut r2, p, variant);
+                all_types(st, "plu", &ar, &ac);
+            }
+        } else {
+            for _ in 0..8 {
+                let n = rng.usize(1, 8);
+                let sel = rng.below(10);
+                let kind = rng.below(5) as u32;
+                let cname = ["dense", "sparse-pattern", "triangular", "perm-like", "zero-diagonal"][kind as usize];
+                let mut r2 = rng.clone();
+                let mut ar = if sel < 2 { let p = rng.perm(n); plu_exact::<Rat>(rng, &p, kind % 3) } else { rand_dense_exact::<Rat>(rng, n, kind) };
+                let mut ac = if sel < 2 { let p = r2.perm(n); plu_exact::<CRat>(&mut r2, &p, kind % 3) } else { rand_dense_exact::<CRat>(&mut r2, n, kind) };
+                if sel >= 6 {
+                    let how = rng.below(5);
+                    let mut r3 = rng.clone();
+                    let c1 = make_singular(rng, &mut ar, how);
+                    let _ = make_singular(&mut r3, &mut ac, how);
+                    all_types(st, c1, &ar, &ac);
+                } else if sel == 5 && n <= 5 {
+                    let b = rand_dense_exact::<Rat>(rng, n, 0);
+                    judge_product_rule(st, &ar, &b);
+                    let bc = rand_dense_exact::<CRat>(rng, n, 0);
+                    judge_product_rule(st, &ac, &bc);
+                } else {
+                    all_types(st, if sel < 2 { "plu" } else { cname }, &ar, &ac);
+                }
+            }
+        }
+    });
+    let mut rep = Report::new(stats,
+        "cases: all n! permutation matrices and scaled permutations for n<=6 (quick)/7 (thorough), P*L*U matrices for every such P (parity of forced exchanges), random dense/sparse-pattern/triangular/permutation-like/zero-diagonal integer matrices of order 1..8, rank-deficient families (zero row, zero column, proportional rows, rank n-2, dependent last column), det(AB)=det(A)det(B); each through Rat, CRat, f64, Complex<f64>. Non-trivial: n>=2 and determinant (and inverse when nonsingular) judged; distinct = distinct (type,class,matrix) hashes");
+    rep.assumptions = vec![
+        "exact model: harness Gauss-Jordan over Rat/CRat with first-nonzero pivoting".into(),
+        "float demands: data are integer/dyadic so the exact determinant/inverse are known; nonsingular cases need kappa_inf<=1e8; singular cases: result finite and |det| <= n*tau(n)*prod(row 2-norms)".into(),
+        "inverse of a singular matrix is not constrained by the property and is not called".into(),
+    ];
+    rep.min_nontrivial = 500;
+    rep
 }
